@@ -167,8 +167,9 @@ func c16OrdScenario(c *fw.Ctx, sp c16OrdSpec) schedScenario {
 }
 
 func c16OrdRun(c *fw.Ctx) {
-	for _, sp := range c16OrdSpecs() {
-		exploreSched(c, c16OrdScenario(c, sp))
+	specs := c16OrdSpecs()
+	for i, sp := range specs {
+		c.Share(len(specs)-i, func() { exploreSched(c, c16OrdScenario(c, sp)) })
 	}
 }
 
